@@ -169,8 +169,14 @@ def check_case(ctx, case):
     for p, ps in case["configs"]:
         snapshot = b.copy()
         b_before = b.copy()
-        ok, tree, tb = ctx.guarded(HilbertRtree, b, p, ps)
+        handed = b.copy()
+        ok, tree, tb = ctx.guarded(HilbertRtree, handed, p, ps)
         ctx.count("input_untouched_checked")
+        if not np.array_equal(handed, b_before, equal_nan=True):
+            b = handed.copy()
+        # the caller reuses the array it built the index from: the index answers for the boxes it was built from
+        if handed.size:
+            handed[...] = -98765.5
         if not np.array_equal(b, b_before, equal_nan=True):
             ctx.violation("input-modified", "rtree:build-writes-into-callers-bounds",
                           {"d": d, "n": n, "page_size": ps, "p": p}, expected=b_before.tolist()[:10],
